@@ -360,6 +360,13 @@ def _lex_char(text, pfx=""):
         return None
     if e in SIMPLE_ESC:
         return ("chr", SIMPLE_ESC[e], 10, "", pfx)
+    if e[0] == "u" and pfx in ("L", "u", "U"):
+        # universal character name: exactly four hex digits, a code point that is neither a surrogate
+        # nor below 0xA0
+        if len(e) != 5 or any(_dig(c, 16) is None for c in e[1:]):
+            return None
+        v = int(e[1:], 16)
+        return ("chr", v, 16, "", pfx) if 160 <= v <= mx and not 0xD800 <= v <= 0xDFFF else None
     if e[0] == "x":
         if len(e) < 2 or any(_dig(c, 16) is None for c in e[1:]):
             return None
@@ -441,8 +448,9 @@ def spell_value(v, k, refs=None, pp=False):
     a = abs(v)
     cand = int_spellings(a) + (char_spellings(a) if a in CHAR_SPELL or a in (255, 256) else [])
     if pp:
-        # in #if a char16_t / char32_t / char8_t literal is an UNSIGNED operand (uintmax_t arithmetic)
-        cand = [s for s in cand if not s.startswith(("u'", "U'", "u8'"))]
+        # in #if a char16_t / char32_t / char8_t literal is an UNSIGNED operand (uintmax_t arithmetic);
+        # wide literals are left to the literal cases as well (vf/condexpr.py keeps to plain ones)
+        cand = [s for s in cand if not s.startswith(("u'", "U'", "u8'", "L'"))]
     cand = [("-" + s if v < 0 else s) for s in cand]
     if refs and v in refs:
         cand = cand + list(refs[v])
